@@ -14,6 +14,7 @@ fn main() {
     "c06" => vh::engines::c06::run(),
     "c07" => vh::engines::c07::run(),
     "c09" => vh::engines::c09::run(),
+    "c10" => vh::engines::c10::run(),
     "c13" => vh::engines::c13::run(),
     "parse" => {
       // debug helper: vh parse "<names,comma separated>" "<text>"
